@@ -8,7 +8,8 @@ offset and parse one member", which succeeds exactly at a member start and repor
 the end of the file).  The reader mirrors reader.go:533–663 (Read, ReadByte, nextBlock), Seek
 (447–509) and the `block` type of cache.go literally: the current block with its `bytes.Reader` index
 `pos`, its `offset` (`tx`, the source of `LastChunk`), the sticky `err`, `lastChunk` and `Blocked`.
-The code path mirrored is the synchronous one (`bg.dec != nil`, rd = 1); with read-ahead the same
+The code path mirrored is the synchronous one (`bg.dec != nil`, rd = 1; a failed load leaves the block
+`failAt` makes: base = the offset asked for, no header, no data); with read-ahead the same
 block contents are delivered through the `working` channel and the correspondence check compares
 every rd with this model.
 -/
@@ -83,13 +84,19 @@ def readByte (b : Block) : UInt8 × Bool × Block :=
 def seek (b : Block) (off : Nat) : Block :=
   { b with pos := off, tx := ⟨b.tx.file, off % 65536⟩ }
 
-/-- `dec.using(b).nextBlockAt(base).wait()`: `setBase` happens before the member is read, so a
-failed load leaves a block with the new base and offset but the old (stale) data. -/
-def load (f : File) (b : Block) (base : Nat) : Block × Option Err :=
+/-- The block of a failed load (`decompressor.failAt`): labelled with the offset asked for, no header
+(`hsize = 0`: `NextBase()` is −1; a loaded member always has a positive size) and no data (`buf == nil`). -/
+def failed (base : Nat) : Block := ⟨base, 0, [], 0, ⟨base, 0⟩⟩
+
+/-- `hasData()`: `buf != nil`.  Exactly the blocks of failed loads have none. -/
+def hasData (b : Block) : Bool := b.hsize ≠ 0
+
+/-- `dec.using(b).nextBlockAt(base).wait()` -/
+def load (f : File) (_b : Block) (base : Nat) : Block × Option Err :=
   match memberAt f base with
   | .ok m => (⟨base, m.csize, m.data, 0, ⟨base, 0⟩⟩, none)
-  | .eof => ({ b with base := base, tx := ⟨base, 0⟩ }, some .eof)
-  | .bad => ({ b with base := base, tx := ⟨base, 0⟩ }, some .other)
+  | .eof => (failed base, some .eof)
+  | .bad => (failed base, some .other)
 
 end Block
 
@@ -203,11 +210,10 @@ def readByte (r : Reader) : Reader × UInt8 × Option Err :=
           let r' := { r' with err := e }
           (r'.setEnd, c, e)
 
-/-- `Reader.Seek(off)` on a seekable file, no cache.  The code's test is
-`off.File != bg.current.Base() || !bg.current.hasData()`; on the synchronous path the current block always has
-data after `NewReader` succeeded (a failed load keeps the old buffer), so the second disjunct is constant false. -/
+/-- `Reader.Seek(off)` on a seekable file, no cache:
+`if off.File != bg.current.Base() || !bg.current.hasData() { … load … }`. -/
 def seek (r : Reader) (off : Offset) : Reader × Option Err :=
-  if off.file ≠ r.cur.base then
+  if off.file ≠ r.cur.base ∨ r.cur.hasData = false then
     let (b, e) := r.cur.load r.file off.file
     let r := { r with cur := b, err := e }
     match e with
